@@ -84,9 +84,40 @@ TARGETS = [
     dict(name="tbc_write_encrypted_client_header", file="src/tbc_header/encrypt.rs", fn="write_encrypted_client_header", kind="method", fields=[("half", "opaque")], helpers=[],
          io_params={"write": "writer"}, ext_params=["ext_raw"], ret="unit",
          self_calls={"encrypt_client_header": ("tr_tbc_encrypt_client_header ext_raw", ["self.half"], ("arr", "u8"))}),
+    dict(name="rc4_key_scheduling_algorithm", file="src/rc4.rs", fn="key_scheduling_algorithm", kind="method",
+         fields=[("state", ("arr", "u8")), ("i", "u8"), ("j", "u8")], ret="unit"),
+    dict(name="rc4_new", file="src/rc4.rs", fn="new", kind="function", ret="list N * N * N", structs={"Self": ["state", "i", "j"]},
+         mut_method_calls={"key_scheduling_algorithm": ("tr_rc4_key_scheduling_algorithm", 3)}),
+    dict(name="vanilla_encrypter_new", file="src/vanilla_header/encrypt.rs", fn="new", kind="function", ret="list N * N * N",
+         structs={"Self": ["session_key", "index", "previous_value"]}),
+    dict(name="vanilla_decrypter_new", file="src/vanilla_header/decrypt.rs", fn="new", kind="function", ret="list N * N * N",
+         structs={"Self": ["session_key", "index", "previous_value"]}),
+    dict(name="tbc_encrypter_new", file="src/tbc_header/encrypt.rs", fn="new", kind="function", ret="list N * N * N",
+         structs={"Self": ["key", "index", "previous_value"]}, try_into_len="proof_length"),
+    dict(name="tbc_decrypter_new", file="src/tbc_header/decrypt.rs", fn="new", kind="function", ret="list N * N * N",
+         structs={"Self": ["key", "index", "previous_value"]}, try_into_len="proof_length"),
     dict(name="rc4_apply_keystream", file="src/rc4.rs", fn="apply_keystream", kind="method_slice_loop",
          fields=[("state", ("arr", "u8")), ("i", "u8"), ("j", "u8")],
          self_calls={"pseudo_random_generation": ("tr_rc4_prga", ["self.state", "self.i", "self.j"])}),
+    dict(name="wrath_inner_new", file="src/wrath_header/inner_crypto/mod.rs", fn="new", kind="function", ret="list N * N * N",
+         structs={"Self": ["inner"]}, opt_calls={"Rc4::new": ("tr_rc4_new", ("struct", "Rc4"))},
+         mut_method_calls={"apply_keystream": ("tr_rc4_apply_keystream_step", 3, "slice")}),
+    dict(name="wrath_server_enc_new", file="src/wrath_header/encrypt.rs", fn="new", nth=0, kind="function", ret="(list N * N * N) * list N",
+         structs={"Self": ["encrypt", "server_header"]}, consts={"R": ("wrath_R", ("arr", "u8")), "S": ("wrath_S", ("arr", "u8")), "SERVER_HEADER_MAXIMUM_LENGTH": ("wrath_server_header_max_length", "u8"), "SERVER_HEADER_MINIMUM_LENGTH": ("wrath_server_header_min_length", "u8")}, opt_calls={"InnerCrypto::new": ("tr_wrath_inner_new", ("struct", "Rc4"))}),
+    dict(name="wrath_client_enc_new", file="src/wrath_header/encrypt.rs", fn="new", nth=1, kind="function", ret="list N * N * N",
+         structs={"Self": ["encrypt"]}, consts={"R": ("wrath_R", ("arr", "u8")), "S": ("wrath_S", ("arr", "u8")), "SERVER_HEADER_MAXIMUM_LENGTH": ("wrath_server_header_max_length", "u8"), "SERVER_HEADER_MINIMUM_LENGTH": ("wrath_server_header_min_length", "u8")}, opt_calls={"InnerCrypto::new": ("tr_wrath_inner_new", ("struct", "Rc4"))}),
+    dict(name="wrath_server_dec_new", file="src/wrath_header/decrypt.rs", fn="new", nth=0, kind="function", ret="list N * N * N",
+         structs={"Self": ["decrypt"]}, consts={"R": ("wrath_R", ("arr", "u8")), "S": ("wrath_S", ("arr", "u8")), "SERVER_HEADER_MAXIMUM_LENGTH": ("wrath_server_header_max_length", "u8"), "SERVER_HEADER_MINIMUM_LENGTH": ("wrath_server_header_min_length", "u8")}, opt_calls={"InnerCrypto::new": ("tr_wrath_inner_new", ("struct", "Rc4"))}),
+    dict(name="wrath_client_dec_new", file="src/wrath_header/decrypt.rs", fn="new", nth=1, kind="function", ret="(list N * N * N) * list N",
+         structs={"Self": ["decrypt", "header"]}, consts={"R": ("wrath_R", ("arr", "u8")), "S": ("wrath_S", ("arr", "u8")), "SERVER_HEADER_MAXIMUM_LENGTH": ("wrath_server_header_max_length", "u8"), "SERVER_HEADER_MINIMUM_LENGTH": ("wrath_server_header_min_length", "u8")}, opt_calls={"InnerCrypto::new": ("tr_wrath_inner_new", ("struct", "Rc4"))}),
+    dict(name="vanilla_crypto_new", file="src/vanilla_header/mod.rs", fn="new", nth=0, kind="function", ret="(list N * N * N) * (list N * N * N)",
+         structs={"Self": ["decrypt", "encrypt"]}, opt_calls={"DecrypterHalf::new": ("tr_vanilla_decrypter_new", ("struct", "Half")), "EncrypterHalf::new": ("tr_vanilla_encrypter_new", ("struct", "Half"))}),
+    dict(name="tbc_crypto_new", file="src/tbc_header/mod.rs", fn="new", nth=0, kind="function", ret="(list N * N * N) * (list N * N * N)",
+         structs={"Self": ["decrypt", "encrypt"]}, opt_calls={"DecrypterHalf::new": ("tr_tbc_decrypter_new", ("struct", "Half")), "EncrypterHalf::new": ("tr_tbc_encrypter_new", ("struct", "Half"))}),
+    dict(name="wrath_client_crypto_new", file="src/wrath_header/mod.rs", fn="new", nth=0, kind="function", ret="((list N * N * N) * list N) * (list N * N * N)",
+         structs={"Self": ["decrypt", "encrypt"]}, opt_calls={"ClientDecrypterHalf::new": ("tr_wrath_client_dec_new", ("struct", "Half")), "ClientEncrypterHalf::new": ("tr_wrath_client_enc_new", ("struct", "Half"))}),
+    dict(name="wrath_server_crypto_new", file="src/wrath_header/mod.rs", fn="new", nth=1, kind="function", ret="(list N * N * N) * ((list N * N * N) * list N)",
+         structs={"Self": ["decrypt", "encrypt"]}, opt_calls={"ServerDecrypterHalf::new": ("tr_wrath_server_dec_new", ("struct", "Half")), "ServerEncrypterHalf::new": ("tr_wrath_server_enc_new", ("struct", "Half"))}),
     dict(name="wrath_from_small_array", file="src/wrath_header/mod.rs", fn="from_small_array", kind="function", ret="N * N", structs={"Self": ["size", "opcode"]}),
     dict(name="wrath_from_large_array", file="src/wrath_header/mod.rs", fn="from_large_array", kind="function", ret="N * N", structs={"Self": ["size", "opcode"]},
          free_helpers=[("clear_large_header", "src/wrath_header/decrypt.rs")]),
@@ -130,6 +161,35 @@ TARGETS = [
          gen_params=["generator"], prime_params=["large_safe_prime"], res_calls={"PublicKey::client_try_from_bigint": "pk_client_try_from_bigint be"}),
     dict(name="srp_calculate_client_S", file="src/srp_internal_client.rs", fn="calculate_client_S", kind="formula",
          gen_params=["generator"], prime_params=["large_safe_prime"]),
+    dict(name="pin_get_pin_grid_seed", file="src/pin.rs", fn="get_pin_grid_seed", kind="function", ret="u32", tape=True),
+    dict(name="pin_get_pin_salt", file="src/pin.rs", fn="get_pin_salt", kind="function", ret=("arr", "u8"), tape=True, consts={"PIN_SALT_SIZE": ("pin_salt_size", "u8")}),
+    dict(name="matrix_get_matrix_card_seed", file="src/matrix_card.rs", fn="get_matrix_card_seed", kind="function", ret="u64", tape=True),
+    dict(name="integrity_get_salt_value", file="src/integrity.rs", fn="get_salt_value", kind="function", ret=("arr", "u8"), tape=True,
+         consts={"crate::INTEGRITY_SALT_LENGTH": ("integrity_salt_length", "u8")}),
+    dict(name="vanilla_proof_seed_default", file="src/vanilla_header/mod.rs", fn="default", kind="function", ret="u32", tape=True, structs={"Self": ["seed"]}),
+    dict(name="tbc_proof_seed_default", file="src/tbc_header/mod.rs", fn="default", kind="function", ret="u32", tape=True, structs={"Self": ["seed"]}),
+    dict(name="wrath_proof_seed_default", file="src/wrath_header/mod.rs", fn="default", kind="function", ret="u32", tape=True, structs={"Self": ["seed"]}),
+    dict(name="server_from_database_values", file="src/server.rs", fn="from_database_values", kind="api", assoc=True, fields=[],
+         identity=["Verifier::from_le_bytes", "Salt::from_le_bytes"]),
+    dict(name="server_with_specific_salt", file="src/server.rs", fn="with_specific_salt", kind="api", assoc=True, fields=[], extra_params=["be : backend"],
+         opt_calls={"srp_internal::calculate_password_verifier": ("tr_srp_calculate_password_verifier be", ("arr", "u8")),
+                    "Self::from_database_values": ("tr_server_from_database_values", ("struct", "Self"))}),
+    dict(name="server_from_username_and_password", file="src/server.rs", fn="from_username_and_password", kind="api", assoc=True, fields=[],
+         extra_params=["be : backend"], tape=True,
+         opt_calls={"Self::with_specific_salt": ("tr_server_with_specific_salt be", ("struct", "Self"))}),
+    dict(name="server_with_specific_private_key", file="src/server.rs", fn="with_specific_private_key", kind="api",
+         fields=["username", "password_verifier", "salt"], extra_params=["be : backend"],
+         sum_calls={"srp_internal::calculate_server_public_key": ("tr_srp_calculate_server_public_key be", ("arr", "u8"))}),
+    dict(name="server_into_proof", file="src/server.rs", fn="into_proof", kind="api",
+         fields=["username", "password_verifier", "salt"], extra_params=["be : backend"], tape=True,
+         sum_calls={"Self::with_specific_private_key": ("tr_server_with_specific_private_key be", ("struct", "SrpProof"))}),
+    dict(name="client_new", file="src/client.rs", fn="new", kind="api", assoc=True, fields=[], extra_params=["be : backend"], tape=True,
+         identity=["Generator::from", "LargeSafePrime::from_le_bytes", "Salt::from_le_bytes"],
+         calls={"srp_internal::calculate_x": ("calculate_x", "pure"),
+                "calculate_client_proof_with_custom_value": ("calculate_client_proof_with_custom_value", "pure")},
+         sum_calls={"srp_internal_client::calculate_client_public_key": ("tr_srp_calculate_client_public_key be", ("arr", "u8"))},
+         opt_calls={"calculate_u": ("tr_srp_calculate_u", ("arr", "u8")), "calculate_client_S": ("tr_srp_calculate_client_S be", ("arr", "u8")),
+                    "calculate_interleaved": ("tr_srp_calculate_interleaved", ("arr", "u8"))}),
     dict(name="key_check_public_key", file="src/key.rs", fn="check_public_key", kind="function", ret="unit + pk_error"),
     dict(name="normalized_string_new", file="src/normalized_string.rs", fn="inner", kind="function", ret="nstr_view + ns_error",
          consts={"MAXIMUM_STRING_LENGTH_IN_BYTES": ("max_string_length", "u8")}),
@@ -142,10 +202,30 @@ TARGETS = [
          consts={"MAX_PIN_LENGTH": ("max_pin_length", "u8")}),
     dict(name="pin_to_bytes", file="src/pin.rs", fn="pin_to_bytes", kind="function", ret=("arr", "u8"),
          consts={"MAX_PIN_LENGTH": ("max_pin_length", "u8")}),
+    dict(name="pin_calculate_hash", file="src/pin.rs", fn="calculate_hash", kind="function", ret="option (list N)",
+         consts={"MIN_PIN_LENGTH": ("min_pin_length", "u8"), "MAX_PIN_LENGTH": ("max_pin_length", "u8"), "PIN_HASH_SIZE": ("pin_hash_size", "u8")},
+         opt_calls={"pin_to_bytes": ("tr_pin_to_bytes 11%nat", ("arr", "u8")), "remap_pin_grid": ("tr_pin_remap_pin_grid", ("arr", "u8"))}),
+    dict(name="pin_verify_client_pin_hash", file="src/pin.rs", fn="verify_client_pin_hash", kind="function", ret="bool",
+         opt_calls={"calculate_hash": ("tr_pin_calculate_hash", ("opt", ("arr", "u8")))}),
     dict(name="matrix_get_number_at_coordinates", file="src/matrix_card.rs", fn="get_number_at_coordinates", kind="method",
          fields=[("digit_count", "u8"), ("width", "u8"), ("height", "u8"), ("data", ("arr", "u8"))], helpers=[], ret=("arr", "u8"), readonly=True),
     dict(name="matrix_get_matrix_coordinates", file="src/matrix_card.rs", fn="get_matrix_coordinates", kind="method",
          fields=[("challenge_count", "u8"), ("height", "u8"), ("width", "u8"), ("coordinates", ("arr", "u8"))], helpers=[], ret="option (N * N)", readonly=True),
+    dict(name="matrix_verifier_new", file="src/matrix_card.rs", fn="new", nth=1, kind="function",
+         ret="N * N * N * list N * (list N * list N) * (list N * N * N)",
+         structs={"Self": ["challenge_count", "height", "width", "coordinates", "hmac", "rc4"]},
+         opt_calls={"generate_coordinates": ("tr_matrix_generate_coordinates", ("arr", "u8")), "Rc4::new": ("tr_rc4_new", ("struct", "Rc4"))}),
+    dict(name="matrix_enter_value", file="src/matrix_card.rs", fn="enter_value", kind="method", helpers=[],
+         fields=[("challenge_count", "u8"), ("height", "u8"), ("width", "u8"), ("coordinates", ("arr", "u8")), ("hmac", "hmac"), ("rc4", ("struct", "Rc4"))], mut_method_calls={"apply_keystream": ("tr_rc4_apply_keystream_step", 3, "slice")}),
+    dict(name="matrix_into_proof", file="src/matrix_card.rs", fn="into_proof", kind="method", helpers=[],
+         fields=[("challenge_count", "u8"), ("height", "u8"), ("width", "u8"), ("coordinates", ("arr", "u8")), ("hmac", "hmac"), ("rc4", ("struct", "Rc4"))], ret=("arr", "u8"), readonly=True),
+    dict(name="matrix_verify_matrix_card_hash", file="src/matrix_card.rs", fn="verify_matrix_card_hash", kind="function", ret="bool",
+         struct_params={"matrix_card": [("digit_count", "u8"), ("width", "u8"), ("height", "u8"), ("data", ("arr", "u8"))]},
+         opt_calls={"MatrixCardVerifier::new": ("tr_matrix_verifier_new", ("struct", "MatrixCardVerifier"))},
+         param_method_calls={"get_number_at_coordinates": ("tr_matrix_get_number_at_coordinates", ("arr", "u8"))},
+         struct_method_calls={"get_matrix_coordinates": ("tr_matrix_get_matrix_coordinates", 6, [0, 1, 2, 3], ("opt", ("tup", ("u8", "u8")))),
+                              "into_proof": ("tr_matrix_into_proof", 6, [0, 1, 2, 3, 4, 5], ("arr", "u8"))},
+         mut_method_calls={"enter_value": ("tr_matrix_enter_value", 6)}),
     dict(name="server_verify_reconnection_attempt", file="src/server.rs", fn="verify_reconnection_attempt", kind="api",
          fields=["username", "session_key", "reconnect_challenge_data"], mutates=True, tape=True,
          calls={"calculate_reconnect_proof": ("calculate_reconnect_proof", "pure")},
@@ -176,6 +256,15 @@ TARGETS = [
          fields=[("seed", "u32")], calls={"calculate_world_server_proof": ("WorldProof.calculate_world_server_proof", "pure"), "ServerCrypto::new": ("Wrath.server_crypto_new", "nres")}),
     dict(name="skey_as_equal_slice", file="src/key.rs", fn="as_equal_slice", kind="method",
          fields=[("key", ("arr", "u8"))], helpers=[], ret=("arr", "u8"), readonly=True),
+    dict(name="srp_calculate_u", file="src/srp_internal.rs", fn="calculate_u", kind="function", ret=("arr", "u8"),
+         byte_types=["PublicKey"], identity=["Sha1Hash::from_le_bytes", "as_le_bytes", "into"]),
+    dict(name="srp_calculate_interleaved", file="src/srp_internal.rs", fn="calculate_interleaved", kind="function", ret=("arr", "u8"),
+         consts={"S_LENGTH": ("s_length", "u8")}, method_calls={"as_equal_slice": ("tr_skey_as_equal_slice 33", ("arr", "u8"))},
+         identity=["SessionKey::from_le_bytes"], byte_types=["SKey"]),
+    dict(name="srp_calculate_session_key", file="src/srp_internal.rs", fn="calculate_session_key", kind="function", ret=("arr", "u8"),
+         byte_types=["PublicKey", "Verifier", "PrivateKey"], extra_params=["be : backend"],
+         opt_calls={"calculate_u": ("tr_srp_calculate_u", ("arr", "u8")), "calculate_S": ("tr_srp_calculate_S be", ("arr", "u8")),
+                    "calculate_interleaved": ("tr_srp_calculate_interleaved", ("arr", "u8"))}),
 ]
 
 def tuple_of(names):
@@ -256,7 +345,7 @@ def method_slice_loop(t, src):
     return "(* %s fn %s(&mut self, %s): for %s in %s; fields %s *)\n%s" % (t["file"], t["fn"], it, var, it, " ".join(fields), head)
 
 def method(t, src):
-    sig, ret, body = find_fn(src, t["fn"])
+    sig, ret, body = find_fn(src, t["fn"], t.get("nth", 0))
     ps = split_params(sig)
     if not ps or ps[0][0] != "self": raise Untranslatable("not a method")
     helpers = {}
@@ -289,7 +378,7 @@ def method(t, src):
         g.free_helpers[h] = ([(n_, param_type(ty_)[0]) for n_, ty_ in split_params(hs)], blk_h[0][1])
     g.externs = dict(t.get("externs", {}))
     g.enums = dict(t.get("enums", {})); g.ctor_calls = dict(t.get("ctors", {})); g.opt_calls = dict(t.get("opt_calls", {}))
-    g.self_calls = dict(t.get("self_calls", {}))
+    g.self_calls = dict(t.get("self_calls", {})); g.mut_method_calls = dict(t.get("mut_method_calls", {}))
     blk = Parser(tokenize(body)).block()
     g.usize_vars = usize_variables(blk)
     fields = ["s_" + f for f, _ in t["fields"]]
@@ -306,7 +395,10 @@ def method(t, src):
     g.fn_final = final
     g.match_patterns = dict(t.get("match_patterns", {}))
     text = g.stmts(blk, final)
-    def cty(ty): return "list N" if isinstance(ty, tuple) else ("ST" if ty == "opaque" else "N")
+    def cty(ty):
+        if ty == "hmac": return "(list N * list N)"
+        if isinstance(ty, tuple) and ty[0] == "struct": return {"Rc4": "(list N * N * N)"}[ty[1]]
+        return "list N" if isinstance(ty, tuple) else ("ST" if ty == "opaque" else "N")
     tys = " ".join("(%s : %s)" % ("s_" + f, cty(ty)) for f, ty in t["fields"])
     if any(ty == "opaque" for _, ty in t["fields"]):
         exts = sorted(set(v[0] for v in t.get("externs", {}).values()) | set(t.get("ext_params", [])))
@@ -347,14 +439,27 @@ def function(t, src):
     """free function: parameters by value or &mut array; result = (mutable array params.., tail value)"""
     ps, ret, body = free_fn(src, t["fn"], t.get("nth", 0))
     env, names, muts = {}, [], []
+    sparams = t.get("struct_params", {})
     for name, ty in ps:
-        pt, mut = param_type(ty)
+        if name in sparams:
+            for f_, fty in sparams[name]:
+                env["%s.%s" % (name, f_)] = ("v_%s_%s" % (name, f_), fty); names.append(("v_%s_%s" % (name, f_), fty))
+            continue
+        try: pt, mut = param_type(ty)
+        except Untranslatable:
+            if re.sub(r"^&\s*(mut\s+)?", "", ty).strip() in t.get("byte_types", ()): pt, mut = ("arr", "u8"), False
+            else: raise
         env[name] = ("v_" + name, pt); names.append(("v_" + name, pt))
         if mut and isinstance(pt, tuple): muts.append(name)
     consts = dict(CONSTS); consts.update(t.get("consts", {}))
     g = Gen(env, consts)
     g.enums = dict(ENUMS); g.ctor_calls = dict(CTORS); g.structs = dict(STRUCTS_FN); g.opt_calls = dict(t.get("opt_calls", {}))
     g.structs.update(t.get("structs", {}))
+    g.mut_method_calls = dict(t.get("mut_method_calls", {})); g.try_into_len = t.get("try_into_len")
+    g.struct_params = {n_: [f_ for f_, _ in fs_] for n_, fs_ in sparams.items()}
+    g.param_method_calls = dict(t.get("param_method_calls", {})); g.struct_method_calls = dict(t.get("struct_method_calls", {}))
+    g.method_calls = dict(t.get("method_calls", {})); g.identity_calls = set(t.get("identity", []))
+    if t.get("tape"): g.tape = "v_tape"
     for h in t.get("free_helpers", []):
         hsrc = src
         if isinstance(h, tuple): h, hfile = h; hsrc = strip_comments(open(os.path.join(REPO, hfile)).read())
@@ -366,11 +471,13 @@ def function(t, src):
     g.usize_vars = usize_variables(blk)
     def final(tail):
         if tail is None: raise Untranslatable("function without a result")
-        return "Some %s" % tail[0]
+        return ("Some (%s, v_tape)" % tail[0]) if t.get("tape") else "Some %s" % tail[0]
     text = g.stmts(blk, final)
     fuel = "(fuel : nat) " if g.uses_fuel else ""
     rty = "list N" if isinstance(t.get("ret"), tuple) else (t["ret"] if isinstance(t.get("ret"), str) and t["ret"] not in BITS else "N")
-    head = "Definition tr_%s %s%s: option (%s) :=\n  %s." % (t["name"], fuel, "".join("(%s : %s) " % (n_, "list N" if (isinstance(ty_, tuple) or ty_ == "str") else "N") for n_, ty_ in names), rty, text)
+    if t.get("tape"): rty = "%s * tape" % rty; names.append(("v_tape", "tape"))
+    fuel += "".join("(%s) " % p for p in t.get("extra_params", []))
+    head = "Definition tr_%s %s%s: option (%s) :=\n  %s." % (t["name"], fuel, "".join("(%s : %s) " % (n_, "tape" if ty_ == "tape" else ("list N" if (isinstance(ty_, tuple) or ty_ == "str") else "N")) for n_, ty_ in names), rty, text)
     note = "(* %s fn %s(%s) *)" % (t["file"], t["fn"], ", ".join(n_ for n_, _ in names))
     return note + "\n" + head
 
@@ -380,6 +487,9 @@ STRUCTS = {"MatchProofsError": ["client_proof", "server_proof"],
            "SrpServer": ["username", "session_key", "reconnect_challenge_data"],
            "SrpClient": ["username", "session_key"],
            "SrpClientReconnection": ["challenge_data", "proof"]}
+STRUCTS.update({"SrpProof": ["username", "server_public_key", "salt", "server_private_key", "password_verifier"],
+                "SrpClientChallenge": ["username", "client_proof", "client_public_key", "session_key"],
+                "Self": ["username", "password_verifier", "salt"]})
 DRAWS = {"ReconnectData": "reconnect_challenge_data_length", "Salt": "salt_length", "PrivateKey": "private_key_length"}
 
 def api(t, src):
@@ -387,6 +497,9 @@ def api(t, src):
     explicit tape, struct / Result values as tuples / sums"""
     sig, ret, body = find_fn(src, t["fn"], t.get("nth", 0))
     ps = split_params(sig)
+    if t.get("assoc"):
+        if ps and ps[0][0] == "self": raise Untranslatable("expected an associated function")
+        ps = [("self", "self")] + ps
     if not ps or ps[0][0] != "self": raise Untranslatable("not a method")
     env, args = {}, []
     for name, ty in ps[1:]:
@@ -402,15 +515,19 @@ def api(t, src):
     g = Gen(env, dict(CONSTS))
     g.calls = dict(t.get("calls", {})); g.identity_calls = set(IDENTITY); g.structs = dict(STRUCTS); g.draws = dict(DRAWS)
     g.field_draws = dict(t.get("field_draws", {}))
+    g.sum_calls = dict(t.get("sum_calls", {})); g.opt_calls = dict(t.get("opt_calls", {}))
+    g.identity_calls |= set(t.get("identity", []))
     if t.get("tape"): g.tape = "v_tape"
     blk = Parser(tokenize(body)).block()
     fields = ["s_" + f for f in t["fields"]]
+    g.self_tuple = " ".join(fields) if fields else None
     def final(tail):
         if tail is None: raise Untranslatable("method without a result")
         parts = [tail[0]]
         if t.get("mutates"): parts.append("(" + ", ".join(fields) + ")" if len(fields) > 1 else fields[0])
         if t.get("tape"): parts.append("v_tape")
         return "Some (%s)" % ", ".join(parts) if len(parts) > 1 else "Some %s" % parts[0]
+    g.fn_final = final
     text = g.stmts(blk, final)
     params = "".join("(%s) " % p for p in t.get("extra_params", []))
     params += "".join("(%s : %s) " % ("s_" + f, "list N" if isinstance(ftypes[f], tuple) else "N") for f in t["fields"])
@@ -422,17 +539,32 @@ def api(t, src):
 
 def main():
     out = ["(* GENERATED by tools/extract_steps.py from the Rust sources under /repo/src. Do not edit. *)",
-           "From Coq Require Import List NArith.", "From WS Require Import lib.Bytes lib.Res lib.Tape lib.IoScript lib.StepLoop Consts model.Bigint model.Srp.", "From WS Require Import model.Key model.NormalizedString.", "Definition nstr_view : Type := (list N * N)%type.",
+           "From Coq Require Import List NArith.", "From WS Require Import lib.Bytes lib.Res lib.Tape lib.IoScript lib.Sha1 lib.Md5 lib.Hmac lib.StepLoop Consts model.Bigint model.Srp.", "From WS Require Import model.Key model.NormalizedString.", "Definition nstr_view : Type := (list N * N)%type.",
            "Definition res_view {A E} (r : res A E) : option (A + E) := match r with Ok a => Some (inl a) | Err e => Some (inr e) | Panic => None end.", "From WS Require model.Vanilla model.Tbc model.Wrath model.WorldProof.", "Import ListNotations.", "Local Open Scope N_scope.", ""]
     failed = []
+    gen = []          # (name, text) in TARGETS order, then sorted so that a definition follows the ones it calls
     for t in TARGETS:
         try:
             src = strip_comments(open(os.path.join(REPO, t["file"])).read())
-            out.append({"slice_loop": slice_loop, "method": method, "function": function, "api": api, "formula": formula, "method_slice_loop": method_slice_loop}[t["kind"]](t, src))
+            gen.append((t["name"], {"slice_loop": slice_loop, "method": method, "function": function, "api": api, "formula": formula, "method_slice_loop": method_slice_loop}[t["kind"]](t, src)))
         except (Untranslatable, OSError) as e:
             failed.append((t["name"], str(e)))
-            out.append("(* %s: NOT TRANSLATED: %s *)" % (t["name"], str(e).replace("*)", "* )")))
-        out.append("")
+            gen.append((t["name"], "(* %s: NOT TRANSLATED: %s *)" % (t["name"], str(e).replace("*)", "* )"))))
+    names = {n for n, _ in gen}
+    def deps(n, txt):
+        body = txt.split(":=", 1)[1] if ":=" in txt else ""
+        return {m.group(1) for m in re.finditer(r"\btr_(\w+?)(?:_step)?\b", body)} & names - {n}
+    done, order = set(), []
+    pending = list(gen)
+    while pending:
+        progressed = False
+        for item in list(pending):
+            if deps(*item) <= done:
+                order.append(item); done.add(item[0]); pending.remove(item); progressed = True
+        if not progressed:
+            order.extend(pending); break
+    for n, txt in order:
+        out.append(txt); out.append("")
     text = "\n".join(out) + "\n"
     old = open(OUT).read() if os.path.exists(OUT) else None
     if old != text:
